@@ -498,6 +498,7 @@ func runBucket(c *rig.Ctx, cs Case, record bool) bool {
 		Ok      []bool `json:"ok"`
 		Windows *bool  `json:"windows"`
 		Tight   int    `json:"tight"`
+		Stale   bool   `json:"staleReachable"`
 	}
 	if err := c.Model("C08.bucket", map[string]interface{}{"qps": cs.QPS, "burst": cs.Burst, "calls": cs.Calls, "impl": oks}, &m); err != nil {
 		return fail("diff", "c08.model-error", "model error: "+err.Error(), nil, nil)
@@ -517,7 +518,11 @@ func runBucket(c *rig.Ctx, cs Case, record bool) bool {
 	if m.Tight > 0 {
 		c.Count("bucket:knife-edge-calls-following-impl")
 	}
-	if nonneg && m.Windows != nil && !*m.Windows {
+	if !monotone && !m.Stale {
+		// TryAcquireN reads the clock inside its own critical section: out-of-order readings cannot reach the
+		// limiter, so such a script is only a model-vs-library comparison
+		c.Count("bucket:stale-readings-unreachable-judge-off")
+	} else if nonneg && m.Windows != nil && !*m.Windows {
 		class, why := "c08.tokens-rate", "clock readings in order"
 		if !monotone {
 			// some readings are older than one the limiter has already seen (what concurrent callers produce)
